@@ -110,7 +110,7 @@ pub fn run_case(line: &str) -> (String, Vec<String>) {
     let (_, f) = Fields::parse(line);
     let func = f.get("fn");
     let ty = f.get("ty");
-    let data = unhex(f.get("d"));
+    let data = data_field(f.get("d"));
     let off = f.num("off");
     let bl = f.num("bl");
     let pat = unhex(f.opt("p").unwrap_or("-"));
